@@ -255,7 +255,7 @@ pub fn c18() -> Simple {
     Simple {
         id: "C18",
         decided_by: "schedules (split points of the byte stream around SSLRequest | ClientHello and chunking of all later TLS records) x configurations (TLS 1.3 / 1.2, client certificate, TLS offered or not, accept/reject)",
-        rule_text: "one run = greeting, SSLRequest (seq 1), a real rustls client handshake with seeded randomness and key shares (byte-identical per seed), the full handshake response inside TLS (seq 2), 0..8 commands lock-step or pipelined; the first read returns exactly b bytes with b walking 0..329 with the job index (SSLRequest alone, +1 byte of TLS, partial record header, whole ClientHello, ...), later reads follow a seeded personality. Oracle: every server byte after the greeting packet belongs to a well-formed TLS record and the rustls client accepts the stream; after_authentication sees the user name sent inside TLS and the fixture client certificate chain (or none); callback log and decoded replies equal the reference model's (the same oracles as over plaintext); sequence ids continue (auth OK has id 3); TLS requested but not offered => run_on returns Err before after_authentication. Distinct = plan signature (includes first-read size and TLS configuration).",
+        rule_text: "one run = greeting, SSLRequest (seq 1), a real rustls client handshake with seeded randomness and key shares (byte-identical per seed), the full handshake response inside TLS (seq 2), 0..8 commands lock-step or pipelined; the first read returns exactly b bytes with b walking 0..329 with the job index (SSLRequest alone, +1 byte of TLS, partial record header, whole ClientHello, ...), later reads follow a seeded personality. Oracle: every server byte after the greeting packet belongs to a well-formed TLS record and the rustls client accepts the stream; after_authentication sees the user name sent inside TLS and the client's certificate chain complete and in order (1..4 certificates; or none); callback log and decoded replies equal the reference model's (the same oracles as over plaintext); sequence ids continue (auth OK has id 3); TLS requested but not offered => run_on returns Err before after_authentication. Distinct = plan signature (includes first-read size and TLS configuration).",
         quick: 200_000,
         thorough: 3_000_000,
         budget_q: 60,
